@@ -65,7 +65,20 @@ BuildOk(k, rec, b, ly, s) ==
         /\ Require(MinimalVersion(b, o, d, ly), k, rec, "C05", "version")
         /\ Require(DataCodewordsISO(b, o, d, ly), k, rec, "C06", "data bits")
         /\ Require(rec.grp = 0 \/ s.grp # rec.grp \/ s.U = U, k, rec, "C08", "unmasked symbol differs from the same payload under another mask")
-  IN IF checks THEN [s EXCEPT !.grp = rec.grp, !.U = IF rec.grp = 0 THEN <<>> ELSE IF s.grp = rec.grp THEN s.U ELSE U]
+      \* C11 through the public API (used when the in-loop recorder is not available): the eight forced-mask builds of a group are
+      \* the candidates; their penalty is taken with the format strip light (as the selection loop sees them) and as emitted; the
+      \* automatic build of the group must be minimal under at least one of the two readings (conservative on purpose)
+      wantPen == "pen" \in DOMAIN rec /\ rec.grp # 0
+      dat == DataIndicator(ly)
+      penA == IF wantPen THEN Penalty(TLCEval([i \in 1..n*n |-> IF ly.reg[i] = 4 THEN 0 ELSE o.M[i]]), dat, n) ELSE 0
+      penB == IF wantPen THEN Penalty(o.M, dat, n) ELSE 0
+      prevPens == IF s.grp = rec.grp THEN s.pens ELSE <<>>
+      minOf(k2) == MinOfSeq([j \in 1..Len(prevPens) |-> prevPens[j][k2]])
+      autoOK == ~wantPen \/ b.mask >= 0 \/ Len(prevPens) # 8 \/ penA = minOf(2) \/ penB = minOf(3)
+                \/ (\E j \in 1..8 : prevPens[j][1] = d.fm /\ (prevPens[j][2] = minOf(2) \/ prevPens[j][3] = minOf(3)))
+  IN IF checks /\ Require(autoOK, k, rec, "C11", "chosen mask does not minimise the documented penalty over the eight forced-mask builds of the same payload")
+     THEN [s EXCEPT !.grp = rec.grp, !.U = IF rec.grp = 0 THEN <<>> ELSE IF s.grp = rec.grp THEN s.U ELSE U,
+                    !.pens = IF wantPen /\ b.mask >= 0 THEN Append(prevPens, <<d.fm, penA, penB>>) ELSE prevPens]
      ELSE s
 
 \* outcome and reported fields only (no matrix in the event): used for the bulk of C05/C10 lengths
@@ -349,7 +362,7 @@ WasmQrStep(k, rec) ==
 \* st.rmemo: sequence of <<qrid, renderer, hash>>.
 \* a new history starts with no builders; the memo of (registers -> result) is kept across the histories of a shard:
 \* equal input and final option values must give equal results whatever happened before, in any history
-Fresh(s, rec) == IF s.grp = rec.grp THEN s ELSE [grp |-> rec.grp, U |-> <<>>, regs |-> <<>>, memo |-> s.memo, rmemo |-> <<>>]
+Fresh(s, rec) == IF s.grp = rec.grp THEN s ELSE [grp |-> rec.grp, U |-> <<>>, regs |-> <<>>, memo |-> s.memo, rmemo |-> <<>>, pens |-> <<>>]
 Lookup(seq, key) == LET hits == SelectSeq(seq, LAMBDA e : e[1] = key) IN IF Len(hits) = 0 THEN <<>> ELSE hits[Len(hits)]
 HNewStep(k, rec, s0) == LET s == Fresh(s0, rec) IN
   [s EXCEPT !.regs = Append(SelectSeq(s.regs, LAMBDA e : e[1] # rec.bid), <<rec.bid, NewRegs(rec.input)>>)]
@@ -435,7 +448,7 @@ StepOf(k, rec, ly, s) ==
     [] rec.ev = "Candidates" -> (IF CandStep(k, rec, ly) THEN s ELSE s)
     [] OTHER -> (IF Require(FALSE, k, rec, "TOOL", "unknown event kind") THEN s ELSE s)
 
-Init == l = 1 /\ lay = NoLayout /\ st = [grp |-> 0, U |-> <<>>, regs |-> <<>>, memo |-> <<>>, rmemo |-> <<>>] /\ TLCSet(1, 0)
+Init == l = 1 /\ lay = NoLayout /\ st = [grp |-> 0, U |-> <<>>, regs |-> <<>>, memo |-> <<>>, rmemo |-> <<>>, pens |-> <<>>] /\ TLCSet(1, 0)
 Step == /\ l <= Len(Rec)
         /\ lay' = NextLay(lay, Rec[l])
         /\ st' = StepOf(l, Rec[l], lay', st)
